@@ -415,12 +415,13 @@ def _lower_for(pat, expr, loop_ann, body, n, ptypes, log):
         raise Unsupported('D1f: take() on something else than a zip of slice iterators: ' + orig)
     # D1e: `for P in G . rev ( )` with G a local bound by `let G = X . rchunks ( N ) ;` (see rule_d1e)
     if len(e) == 1 and e[0][0] == 'id' and e[0][1] in ptypes.get('\0rchunks', ()):
-        if not rev or enum:
-            raise Unsupported('D1e: an RChunks local is only supported as `for P in G.rev()`: ' + orig)
+        if enum:
+            raise Unsupported('D1e: an RChunks local is only supported as `for P in G.rev()` / `for P in G`: ' + orig)
         g = e[0][1]
-        log.append('D1e `%s` -> index while loop (%s): item k is `%s.__from_front(k)`, %s.len() items' % (orig, iv, g, g))
+        getter = '__from_front' if rev else '__from_back'
+        log.append('D1e `%s` -> index while loop (%s): item k is `%s.%s(k)`, %s.len() items' % (orig, iv, g, getter, g))
         head = toks_of('let %s = %s . len ( ) ; let mut %s : usize = 0 ; while %s < %s' % (nv, g, iv, iv, nv), False)
-        inner = toks_of('let %s = %s . __from_front ( %s ) ; %s += 1 ;' % (_txt(pat), g, iv, iv), False)
+        inner = toks_of('let %s = %s . %s ( %s ) ; %s += 1 ;' % (_txt(pat), g, getter, iv, iv), False)
         return head + loop_ann + [T('p', '{')] + inner + body + [T('p', '}')]
     pre = []
     # --- ranges
@@ -966,67 +967,6 @@ def rule_d11c(toks, log):
                     out = out[:i] + new + out[e1 + 2:]
                     i += len(new)
                     continue
-        i += 1
-    return out
-
-
-def rule_d11d(toks, log):
-    """`( A OP X )` -- the parenthesised expression consists of exactly these three real tokens, OP one of `/ % + - *`,
-    A and X each either `self` in a method whose receiver is the shared reference `&self` (after D2: first parameter
-    `self_ : &T`) or a parameter declared `P : & ['lt] T` (not `&mut`, T not a primitive integer, not a slice), i.e. BOTH
-    operands are references ==> `( core::ops::Tr::m ( A , X ) )`.  Same reason and same justification as D11 / D14b: this Verus build fails with
-    an internal error (`codegen_select_candidate failed`) on an overloaded operator whose left operand is a reference, and
-    the rewrite is Rust's own definition of the operator for non-primitive operands (integer/src/div_ops.rs
-    `(self % divisor).is_zero()`).  Any other shape leaves the tokens untouched."""
-    out = list(toks)
-    refs = set()
-    # the signature: real tokens from `fn` up to the body `{`
-    f = None
-    for k, t in enumerate(out):
-        if _is(t, 'fn') and not t[2]:
-            f = k
-            break
-    if f is None:
-        return out
-    po = None
-    for k in range(f, len(out)):
-        if out[k][2]:
-            continue
-        if _is(out[k], '('):
-            po = k
-            break
-        if _is(out[k], '{'):
-            break
-    if po is None:
-        return out
-    pc = _match_close(out, po)
-    params = [x for x in out[po + 1:pc] if not x[2]]
-    for part in _split_top(params):
-        if len(part) >= 2 and _is(part[0], '&') and _is(part[1], 'self'):
-            refs.add('self')
-            continue
-        if len(part) >= 4 and part[0][0] == 'id' and _is(part[1], ':') and _is(part[2], '&'):
-            r = 3
-            if r < len(part) and part[r][0] == 'id' and part[r][1].startswith("'"):      # lifetime
-                r += 1
-            if r < len(part) and part[r][0] == 'id' and part[r][1] not in ('mut',) + _D14C_PRIMS:
-                refs.add(part[0][1])
-    if not refs:
-        return out
-    i = 0
-    while i + 4 < len(out):
-        if (out[i][0] == 'p' and out[i][1] == '(' and not out[i][2]
-                and out[i + 1][0] == 'id' and out[i + 1][1] in refs and not out[i + 1][2]
-                and out[i + 2][0] == 'p' and out[i + 2][1] in _D11_OPS and not out[i + 2][2]
-                and out[i + 3][0] == 'id' and not out[i + 3][2] and out[i + 3][1] in refs
-                and out[i + 4][0] == 'p' and out[i + 4][1] == ')' and not out[i + 4][2]):
-            op = out[i + 2][1]
-            log.append('D11d `%s` -> core::ops::%s(..)' % (_txt(out[i:i + 5])[:80], _D11_OPS[op].replace(' ', '')))
-            new = [out[i]] + toks_of('core :: ops :: %s (' % _D11_OPS[op], False) + [out[i + 1], T('p', ','), out[i + 3], T('p', ')'),
-                                                                                     out[i + 4]]
-            out = out[:i] + new + out[i + 5:]
-            i += len(new)
-            continue
         i += 1
     return out
 
@@ -1591,6 +1531,35 @@ def rule_d15(toks, log):
 
 
 # ---------------------------------------------------------------------------------------
+# D15b: `X.bytes().all(|b| b == C)` on a string slice
+
+def rule_d15b(toks, log):
+    """`X . bytes ( ) . all ( | b | b == C )` with X and b single identifiers, C a literal or a single identifier (real
+    tokens only) ==> `__str_all_eq ( X , C )`.  Verus (this build) has no specification for `Iterator::all` / `str::bytes`.
+    The helper `__str_all_eq(s: &str, c: u8) -> bool` is an exec function with an index loop over `s.as_bytes()` and the
+    contract `ret == forall|k| 0 <= k < s.b().len() ==> s.b()[k] == c` (contracts/lib/parse_filter.rs), verified in the
+    same run against the string model of the unit.  Trusted (as for D1 / D15): the meaning of `str::bytes` (the bytes of
+    `as_bytes()` in order) and of `Iterator::all` with a pure closure.  Any other shape is left untouched."""
+    pat = ['.', 'bytes', '(', ')', '.', 'all', '(', '|', None, '|', None, '==', None, ')']
+    out = list(toks)
+    i = 1
+    while i + len(pat) <= len(out):
+        w = out[i:i + len(pat)]
+        if any(x[2] for x in w) or not all(p_ is None or _is(x, p_) for x, p_ in zip(w, pat)) \
+                or w[8][0] != 'id' or w[10] != w[8] or w[12][0] not in ('id', 'lit', 'int', 'num') \
+                or out[i - 1][0] != 'id' or out[i - 1][2] \
+                or (i >= 2 and out[i - 2][0] == 'p' and out[i - 2][1] in ('.', '::', ')', ']', '?')):
+            i += 1
+            continue
+        x, c = out[i - 1][1], w[12][1]
+        log.append('D15b `%s` -> `__str_all_eq(%s, %s)` (helper verified in the unit)' % (_txt(out[i - 1:i + len(pat)]), x, c))
+        new = toks_of('__str_all_eq ( %s ,' % x, False) + [w[12]] + [T('p', ')')]
+        out = out[:i - 1] + new + out[i + len(pat):]
+        i = i - 1 + len(new)
+    return out
+
+
+# ---------------------------------------------------------------------------------------
 # D15c: `Y.iter().copied().filter(|&c| c != C).collect()` on a byte slice
 
 def rule_d15c(toks, log):
@@ -1989,8 +1958,8 @@ def _rchunks_locals(toks):
 def rule_d1e(toks, log):
     """`let G = X . rchunks ( N ) ;` (G, X identifiers, N a literal or a place path `id ( . id )*`, real tokens only)
     ==> `let G = __rchunks ( X , N ) ;`.  Every other real-token use of G must be `G . len ( )` (kept: a method of the
-    helper struct) or the iterator `G . rev ( )` of a `for` loop (lowered by D1/D1e to an index loop with
-    `P = G . __from_front ( k )`); any other use ==> unsupported.  Verus has no model of `core::slice::RChunks`.  The helper
+    helper struct) or the iterator `G . rev ( )` / `G` of a `for` loop (lowered by D1/D1e to an index loop with
+    `P = G . __from_front ( k )` resp. `G . __from_back ( k )`); any other use ==> unsupported.  Verus has no model of `core::slice::RChunks`.  The helper
     struct `__RChunks { v, n }` with `__rchunks`, `len`, `__from_front` (contracts/lib/parse_rchunks.rs) consists of exec
     functions VERIFIED in the same unit against their stated meaning; trusted (as for D1): that meaning IS the definition
     of `<[T]>::rchunks` / `RChunks::len` / `RChunks::next_back` in core (chunks of N elements counted from the END of
@@ -2004,9 +1973,9 @@ def rule_d1e(toks, log):
             e = _match_close(toks, i + 6)
             arg = toks[i + 7:e]
             g, x = toks[i + 1][1], toks[i + 3][1]
-            shape = len(arg) >= 1 and not any(a[2] for a in arg) and (
-                (len(arg) == 1 and arg[0][0] in ('id', 'lit', 'int', 'num'))
-                or (len(arg) % 2 == 1 and all((a[0] == 'id') if k % 2 == 0 else _is(a, '.') for k, a in enumerate(arg))))
+            # N: a side-effect free expression of identifiers, field accesses, literals and + - *
+            shape = len(arg) >= 1 and not any(a[2] for a in arg) and all(
+                a[0] in ('id', 'lit', 'int', 'num') or (a[0] == 'p' and a[1] in ('.', '+', '-', '*')) for a in arg)
             if not shape or not (e + 1 < len(toks) and _is(toks[e + 1], ';')):
                 raise Unsupported('D1e: rchunks shape `%s`' % _txt(toks[i:e + 2]))
             for j in range(len(toks)):
@@ -2016,7 +1985,8 @@ def rule_d1e(toks, log):
                     and _is(toks[j + 4], ')')
                 is_rev = j >= 1 and _is(toks[j - 1], 'in') and j + 4 < len(toks) and _is(toks[j + 1], '.') \
                     and _is(toks[j + 2], 'rev') and _is(toks[j + 3], '(') and _is(toks[j + 4], ')')
-                if not (is_len or is_rev) or j < i:
+                is_fwd = j >= 1 and _is(toks[j - 1], 'in') and j + 1 < len(toks) and (toks[j + 1][2] or _is(toks[j + 1], '{'))
+                if not (is_len or is_rev or is_fwd) or j < i:
                     raise Unsupported('D1e: RChunks local `%s` used other than as `%s.len()` / `for P in %s.rev()`' % (g, g, g))
             log.append('D1e `let %s = %s.rchunks(%s)` -> `let %s = __rchunks(%s, %s)` (helper struct verified in the unit)' % (
                 g, x, _txt(arg), g, x, _txt(arg)))
@@ -2251,6 +2221,8 @@ def rule_d24(toks, log):
             continue
         out.append(t)
         i += 1
+    if names and not any(_real_is(x, '{') for x in out):
+        return out          # signature only (`//@@ SIG`): the directive concerns the body
     for name in names:
         out = _d24_inline(out, name, log)
     return out
@@ -2309,6 +2281,10 @@ def _d24_inline(out, name, log):
             elif not _real_is(nxt, ';'):
                 raise Unsupported('D24: call of `%s` is not a statement `%s(..);`' % (name, name))
             blk = [T('p', '{')]
+            if i > 0 and rest[i - 1][0] == 'p' and rest[i - 1][1] == '}':
+                # `while .. { } { inlined }`: Verus' parser takes a block right after a loop body for a misplaced clause;
+                # an empty statement in between changes nothing
+                blk = [T('p', ';'), T('p', '{')]
             for p, a in zip(params, args):
                 if len(a) == 1 and a[0][0] == 'id' and a[0][1] == p[0][1] and len(p) == 1:
                     continue
@@ -2339,6 +2315,44 @@ def _d24_inline(out, name, log):
 
 
 # ---------------------------------------------------------------------------------------
+# D25: a `&mut dyn Trait` parameter seen as a generic one (fmt/mod.rs InRadixWriter::format_prepared)
+
+def rule_d25(toks, log):
+    """Directive `#[dyn_as_impl(P)]` in the contract block: the parameter `P : & mut dyn TRAIT` of the signature (shape
+    checked; anything else => "unsupported") becomes `P : & mut impl TRAIT`, in the verified function AND in the signature
+    its callers see (`//@@ SIG`).  Verus (this build) can verify calls on a `&mut dyn Trait` but rejects the unsizing
+    coercion `&mut T -> &mut dyn Trait` at the call sites.  A `&mut dyn Trait` can only be used through the trait's
+    methods; with the anonymous type parameter the same body is checked for EVERY implementor and each call dispatches
+    statically to the method the vtable entry points to."""
+    out = []
+    names = []
+    i = 0
+    while i < len(toks):
+        t = toks[i]
+        if t[2] and _is(t, '#') and i + 6 < len(toks) and _is(toks[i + 1], '[') and _is(toks[i + 2], 'dyn_as_impl') \
+                and _is(toks[i + 3], '(') and toks[i + 4][0] == 'id' and _is(toks[i + 5], ')') and _is(toks[i + 6], ']'):
+            names.append(toks[i + 4][1])
+            i += 7
+            continue
+        out.append(t)
+        i += 1
+    for name in names:
+        hit = False
+        for k in range(len(out) - 5):
+            if _real_is(out[k], '{'):
+                break               # parameters only
+            if out[k][0] == 'id' and out[k][1] == name and not out[k][2] and _real_is(out[k + 1], ':') and _real_is(out[k + 2], '&') \
+                    and _real_is(out[k + 3], 'mut') and _real_is(out[k + 4], 'dyn') and out[k + 5][0] == 'id':
+                out[k + 4] = T('id', 'impl')
+                hit = True
+                log.append('D25 parameter `%s: &mut dyn %s` -> `&mut impl %s`' % (name, out[k + 5][1], out[k + 5][1]))
+                break
+        if not hit:
+            raise Unsupported('D25: no parameter `%s : & mut dyn TRAIT`' % name)
+    return out
+
+
+# ---------------------------------------------------------------------------------------
 
 def lower(toks, marks, opts=None):
     """toks: [(kind,text)], marks: [bool]; returns ([(kind,text)], log)."""
@@ -2359,12 +2373,12 @@ def lower(toks, marks, opts=None):
     ts = rule_d11b(ts, log)
     ts = rule_d11c(ts, log)
     ts = rule_d11d(ts, log)
-    ts = rule_d11d(ts, log)
     ts = rule_d12(ts, log)
     ts = rule_d13(ts, log)
     ts = rule_d14(ts, log)
     ts = rule_d14b(ts, log)
     ts = rule_d15(ts, log)
+    ts = rule_d15b(ts, log)
     ts = rule_d15c(ts, log)
     ts = rule_d16(ts, log)
     ts = rule_d17(ts, log)
@@ -2372,6 +2386,7 @@ def lower(toks, marks, opts=None):
     ts = rule_d7(ts, log)
     ts = rule_d1d(ts, log)
     ts = rule_d1e(ts, log)
+    ts = rule_d25(ts, log)
     ts = rule_d24(ts, log)
     ts = rule_d22(ts, log)
     ts = rule_d23(ts, log)
